@@ -109,6 +109,11 @@ def main():
             bad += b'trailing junk that is not a gzip member'
         with open(target, 'wb') as f:
             f.write(bytes(bad))
+    if plan['kind'] == 'gone':
+        # another NATURAL fault: the file is registered, then disappears before run() (removed
+        # by logrotate / left as a dangling symlink)
+        with open(target, 'rb') as f:
+            good_bytes = f.read()
     fired = os.path.join(tmp, '_fired')
     state = {'path': None, 'in_alloc': False, 'in_sync': False, 'count': {}}
 
@@ -329,7 +334,12 @@ def main():
     report(stage='start', plan=plan)
     t0 = time.monotonic()
     try:
-        res = searcher().run()
+        fs1 = searcher()
+        if plan['kind'] == 'gone':
+            os.remove(target)
+            if plan['how'] == 'dangling':
+                os.symlink(target + '.nowhere', target)
+        res = fs1.run()
         out1 = {'outcome': 'returned', 'n': len(res)}
     except FileSearchException:
         out1 = {'outcome': 'FileSearchException'}
@@ -338,10 +348,12 @@ def main():
     except BaseException as e:  # pylint: disable=broad-except
         out1 = {'outcome': 'other:' + type(e).__name__}
     out1['latency'] = round(time.monotonic() - t0, 2)
-    out1['fired'] = os.path.exists(fired) or plan['kind'] == 'corrupt'
+    out1['fired'] = os.path.exists(fired) or plan['kind'] in ('corrupt', 'gone')
     report(stage='run1', **out1)
     report(stage='leftovers1', **leftovers())
     if good_bytes is not None:
+        if os.path.islink(target):
+            os.remove(target)
         with open(target, 'wb') as f:          # the file is repaired before the second run
             f.write(good_bytes)
     # a fresh run in the same process, no fault
